@@ -116,13 +116,18 @@ def threshold_chain(fn, var_pred=None):
     visited = set()
     cur = 0
     cmp_node = None
+    last_false = None
     while cur not in visited:
         visited.add(cur)
         t = body.blocks[cur]["term"]
         if t["t"] in ("goto",):
+            if last_false is not None and any(s["s"] == "assign" for s in body.blocks[cur]["st"]):
+                break      # the else-branch's value block
             cur = t["to"]
             continue
         if t["t"] == "call":
+            if last_false is not None:
+                break
             cur = t.get("to")
             if cur is None:
                 break
@@ -139,9 +144,10 @@ def threshold_chain(fn, var_pred=None):
                 res = first_value_assigned(body, eb, true_t)
                 chain.append((n[1], strip(n[3])[1], res, strip(n[2]), t.get("ln")))
                 cur = false_t
+                last_false = false_t
                 continue
         break
-    default = first_value_assigned(body, eb, cur) if cur is not None else None
+    default = first_value_assigned(body, eb, last_false) if last_false is not None else None
     return chain, default
 
 
@@ -384,3 +390,47 @@ def predicate_table(sc, fields, enums):
         at = Atoms(dict(zip(names, combo)), enums)
         out[combo] = eval_predicate(sc, at)
     return names, out
+
+
+def eval_return(sc, atom_value, maxsteps=120):
+    """walk a body under an atom assignment and return the (rewritten) node last assigned to the return place"""
+    body = sc.body
+    b = 0
+    result = None
+    for _ in range(maxsteps):
+        for s in body.blocks[b]["st"]:
+            if s["s"] == "assign" and s["p"] == 0:
+                result = strip(sc.rvalue(s["rv"]))
+        t = body.blocks[b]["term"]
+        k = t["t"]
+        if k == "return":
+            return result
+        if k == "goto":
+            b = t["to"]
+            continue
+        if k == "switch":
+            n = strip(sc.operand(t["d"]))
+            if n[0] == "discr" and strip(n[1])[0] == "call" and short_callee(strip(n[1])[1]) == "branch":
+                v = "0"
+            else:
+                v = atom_value(n)
+            if v is None:
+                return ("stuck", show(n)[:160])
+            nxt = None
+            for val, tg in t["arms"]:
+                if val == v:
+                    nxt = tg
+            b = nxt if nxt is not None else t["else"]
+            continue
+        if k == "call":
+            if t["dest"] == 0:
+                result = strip(sc._rw(sc.eb.call_node(t, b)))
+            if "to" not in t:
+                return ("stuck", "diverges")
+            b = t["to"]
+            continue
+        if k in ("drop", "assert"):
+            b = t["to"]
+            continue
+        return ("stuck", k)
+    return ("stuck", "too long")
